@@ -226,6 +226,9 @@ def main(c):
                      "subscribers, two shards, three keys, an import policy rejecting one value - exhaustive in TLC; replay: random "
                      "complete interleavings (250 per configuration quick, 500 thorough; in turn plain / with a next hop reported unreachable / with route selection deferred / both) on real threads, each subscriber's events folded by the harness and by the BMP client's own snapshot fold; distinct = replayed behaviours")
     sequential_binding(c, thorough)
+    if not c.violations:
+        import drvlib
+        drvlib.atomicity(c, "C18", "subs")
     c.assumptions += ["scheduling points sit right before each shard-lock acquisition: a change that moves work across such a point is "
                       "visible, a change between two statements inside one critical section or before the point is only visible through its "
                       "effect on the final comparison", "drop_stale / LLGR purges / soft_reset_in (which read the subscriber list before "
